@@ -4,6 +4,7 @@
 use serde_json::{json, Value};
 
 mod c07;
+mod c03;
 mod c08;
 mod c12;
 mod c18;
@@ -39,6 +40,8 @@ fn run(name: &str, args: &Value) -> Value {
         "c20_tuple" => c20::tuple(args),
         "c18_lifecycle" => c18::lifecycle(args),
         "c12_ws_batch" => c12::ws_batch(args),
+        "c03_fast_reply" => c03::fast_reply(args),
+        "c03_subid_collision" => c03::subid_collision(args),
         "c08_append" => c08::append(args),
         "c08_response" => c08::response(args),
         other => {
